@@ -20,11 +20,18 @@ TOPOLOGIES = {
            "pf_switches": ["s_pf1", "s_pf2"], "locks": ["bd_vuk"], "manual": []},
     "t4": {"machine": "balls_t4", "trough": "bd_trough", "trough_switches": ["s_trough1", "s_trough2", "s_trough3", "s_trough4"],
            "pf_switches": ["s_pf1", "s_pf2"], "locks": [], "manual": ["bd_plunger"]},
+    # t1 + a ball save (unlimited saves, 2 s eject delay): drains are answered by new balls
+    "t5": {"machine": "balls_t5", "trough": "bd_trough", "trough_switches": ["s_trough1", "s_trough2", "s_trough3", "s_trough4"],
+           "pf_switches": ["s_pf1", "s_pf2"], "locks": [], "manual": []},
+    # two independent feeds (trough+plunger each) into one playfield
+    "t6": {"machine": "balls_t6", "trough": "bd_trough", "trough_b": "bd_trough_b", "plunger_b": "bd_plunger_b",
+           "trough_switches": ["s_trough1", "s_trough2", "s_troughb1", "s_troughb2"],
+           "pf_switches": ["s_pf1", "s_pf2"], "locks": [], "manual": []},
 }
 
 PROBES = ["game_started", "drain", "drain_during_eject", "multiball_add", "eject_failed_physically", "eject_retry_seen",
           "two_balls_loose", "lock_shot", "lock_release", "manual_plunge", "late_arrival", "fallback", "stuck",
-          "rest_reached", "bounce_off_full", "request_while_busy", "game_ended", "second_game", "ambiguous_reentry", "entrance_reentry_at_eject_timeout"]
+          "rest_reached", "bounce_off_full", "request_while_busy", "game_ended", "second_game", "ambiguous_reentry", "entrance_reentry_at_eject_timeout", "second_feed_request", "ball_saved", "double_drain"]
 
 
 def warm():
@@ -54,6 +61,11 @@ def plan(ch, tier):
         kinds += [("lock_shot", 4), ("lock_eject", 2)]
     if TOPOLOGIES[topo]["manual"]:
         kinds += [("plunge", 5)]
+    if topo == "t5":
+        # ball save: several balls in play and drains close together (inside the save's eject delay)
+        kinds += [("double_drain", 5), ("add_ball", 4)]
+    if "trough_b" in TOPOLOGIES[topo]:
+        kinds += [("drain_b", 4), ("add_ball_b", 3), ("request_both", 2)]
     for i in range(n):
         k = "start" if i == 0 else ch.weighted("op", kinds)
         ops.append({"op": k, "dt": ch.pick("dt", [0.5, 0.0, 0.05, 0.3, 1.0, 2.0, 2.1, 3.1, 5.0, 12.0]), "pick": ch.choice("pick", 3)})
@@ -137,6 +149,8 @@ def execute(ctx, plan, prop):
     broken = set()
 
     def ev_listener(name, ev_type, cb, kwargs):
+        if name.startswith("ball_save_") and name.endswith("_saving_ball"):
+            ctx.probe("ball_saved")
         if name.endswith("_ball_eject_failed"):
             failed_events.append((sim.now, name[len("balldevice_"):-len("_ball_eject_failed")]))
         elif name.startswith("balldevice_") and name.endswith("_broken"):
@@ -161,6 +175,29 @@ def execute(ctx, plan, prop):
             if world.loose_ball_into(topo["trough"], op["pick"]):
                 ctx.probe("drain")
                 world.last_drain_t = sim.now
+        elif k == "double_drain":
+            if world.loose_ball_into(topo["trough"], op["pick"]):
+                ctx.probe("drain")
+                world.last_drain_t = sim.now
+                sim.run([0.4, 0.9, 1.5][op["pick"] % 3])
+                if world.loose_ball_into(topo["trough"], op["pick"]):
+                    ctx.probe("double_drain")
+        elif k == "drain_b":
+            if world.loose_ball_into(topo["trough_b"], op["pick"]):
+                ctx.probe("drain")
+                world.last_drain_t = sim.now
+        elif k == "add_ball_b":
+            if m.game is not None:
+                ctx.probe("second_feed_request")
+                pf.add_ball(source_device=m.ball_devices[topo["plunger_b"]])
+                m.game.balls_in_play += 1
+        elif k == "request_both":
+            # one ball requested from each lane at the same moment (possibly while both feeds are empty)
+            if m.game is not None:
+                ctx.probe("second_feed_request")
+                pf.add_ball()
+                pf.add_ball(source_device=m.ball_devices[topo["plunger_b"]])
+                m.game.balls_in_play += 2
         elif k == "pf_hit":
             world.loose_ball_hits(topo["pf_switches"][op["pick"] % len(topo["pf_switches"])])
         elif k == "add_ball":
@@ -257,7 +294,35 @@ def execute(ctx, plan, prop):
             viol("request_not_served", "playfield", "at rest playfield is still owed %d ball(s) (available_balls=%d, balls=%d) "
                  "while %d ball(s) sit in devices %r" % (pf.available_balls - pf.balls, pf.available_balls, pf.balls, src_has,
                                                          [(d.name, d.balls, d.state) for d in devices]))
-    if m.game is not None and not broken:
+    # a device with a queued ball request whose upstream devices physically hold a ball: the request could be served
+    def upstream(dname):
+        out, todo = set(), [dname]
+        while todo:
+            cur = todo.pop()
+            for i in world.devs.values():
+                if i.target.name == cur and i.name not in out:
+                    out.add(i.name)
+                    todo.append(i.name)
+        return out
+    for d in devices:
+        if d.name in broken or not d.requested_balls:
+            continue
+        ups = sorted(upstream(d.name))
+        have = [u for u in ups if world.count(u) and u not in broken]
+        if have:
+            viol("request_not_served", "queued_request", "at rest %s still has %d queued ball request(s) while its source(s) %r "
+                 "physically hold a ball; world=%r" % (d.name, d.requested_balls, have, world.summary()))
+    if m.game is not None and not broken and not topo["locks"] and not world.ambiguous_reentries and "trough_b" not in topo:
+        # every ball the game counts as in play was requested for the playfield; once the world is at rest they must
+        # all have been delivered (or wait at a manual plunger), as long as balls were available for them
+        waiting = sum(world.count(n) for n in topo["manual"])
+        in_devices = sum(world.count(d.name) for d in devices) - waiting
+        owed = m.game.balls_in_play - loose - waiting
+        if owed > 0 and in_devices > 0:
+            viol("request_not_served", "balls_in_play", "game running with balls_in_play=%d but only %d ball(s) loose and %d waiting "
+                 "at a manual plunger while %d ball(s) sit in devices; world=%r"
+                 % (m.game.balls_in_play, loose, waiting, in_devices, world.summary()))
+    if m.game is not None and not broken and "trough_b" not in topo:
         if m.game.balls_in_play > 0 and loose == 0 and not any(world.count(n) for n in topo["manual"]):
             viol("request_not_served", "ball_in_play", "game running with balls_in_play=%d but no ball is loose and none waits at a "
                  "manual plunger; world=%r" % (m.game.balls_in_play, world.summary()))
